@@ -55,6 +55,36 @@ CHECKS = {
         design="DESIGN.md §4 C06",
         note="Trusted: collections.deque(maxlen=C) as the model. 8 mutants of replay.py all caught.",
     ),
+    "C07": dict(
+        technique="property-based testing (Hypothesis) of the static loss functions / sac_train against float64 reference formulas, incl. gradient and optimiser-step oracles",
+        text="Generated batches with every done/timeout combination, gamma, alpha, drawn Q tables (online and target argmax differ) and "
+        "real MLP networks from drawn keys: DQN.dqn_loss value and online gradient vs r+gamma*(1-terminated)*Q_tgt(s',argmax Q_on(s')); "
+        "SAC.sac_train on a buffer of exactly batch_size rows with a deterministic policy double: reported q_loss vs the reference, "
+        "the returned critics vs an Adam step on the semi-gradient computed by the harness, and bit-identical critics with/without "
+        "the actor update. Mismatches are bucketed by recognisable root cause.",
+        design="DESIGN.md §4 C07",
+        note="Trusted: the networks' own forward passes; optax.adam; NumPy float64. 12 mutants of dqn.py/sac.py all caught.",
+    ),
+    "C13": dict(
+        technique="property-based testing over generated wrapper programs with a reference composed from the declarations; differential testing of adapters against twin Gymnasium/Gymnax environments",
+        text="Seeded pools of wrapper stacks (depth 1-4, all 11 documented wrappers) over generated finite MDPs: every functional "
+        "component of the wrapped env vs a NumPy reference (mapped action reaches dynamics, reward and info; declared signal only; "
+        "advertised spaces; pass-through of mask/flags/info/name/unwrapped); rescale corner laws; every documented wrapper is "
+        "constructed and stepped; TimeLimit histories (incl. nested limits) in lock-step with the reference; GymToLerax/GymnaxToLerax "
+        "vs twin envs, LeraxToGym/LeraxToGymnax vs the lerax env's own components (bare and time-limited).",
+        design="DESIGN.md §4 C13",
+        note="Trusted: vlib/wrapref.py; Gymnasium/Gymnax determinism given seed/key. 16 mutants all caught.",
+    ),
+    "C19": dict(
+        technique="stateful (rule-based machine) property-based testing against an accumulator model; interpreter-based oracle for logged scalars; decomposition oracle for average_reward",
+        text="(a) Hypothesis machine over LoggingCallbackStepState.next histories vs an accumulator model; (b) reset()+iteration() of "
+        "PPO/A2C/REINFORCE/DQN with LoggingCallback and a recording backend: delivered scalars vs per-env EMAs of environment reward "
+        "sums/lengths recomputed from the MDP tables, one record per iteration in order with cumulative steps; (c) average_reward "
+        "(while/scan variants, caps): n*result must decompose into n interpreter-computed episode returns, every start state occurs "
+        "over keys, DP range bounds for stochastic policies.",
+        design="DESIGN.md §4 C19",
+        note="Trusted: vlib/mdp.py interpreter; EMA convention of the LoggingCallback docstring. 12 mutants (see mutants/C19.json).",
+    ),
 }
 
 PENDING_REASON = "check not built yet in this round (planned, see DESIGN.md §8); not claimed until it is quiet on the unchanged tree"
